@@ -55,34 +55,26 @@ class Check(core.PropertyCheck):
     def mon_constants(self, tier):
         return {"EditOff": EDIT}
 
-    GROUPS = {"raw": RAW, "seq": ("dns", "http1"), "h2": ("http2",), "paired": PAIRED}
-
-    def _consts(self, group, tier):
-        """raw: one flow, MaxN messages; the others: two request/response flows.  quick keeps the dumped graphs small
-        (http2, whose streams interleave freely, gets 2 user actions); thorough dumps MaxUser=3 everywhere and checks
-        larger instances without dumping."""
-        raw = group == "raw"
-        big = tier == "thorough"
-        if raw:
-            maxuser = 3
-        elif group == "h2":
-            maxuser = 3 if big else 2
-        else:
-            maxuser = 4 if group == "paired" else 3
-        return {"Protos": frozenset(self.GROUPS[group]), "MaxN": (3 if big else 2) if raw else 4,
-                "NFlows": 1 if raw else 2, "Decisions": frozenset(DECISIONS), "MaxUser": maxuser, "EditOff": EDIT}
+    @staticmethod
+    def _cfg(raw_n, raw_user, seq_user, h2_user, flows=2, protos=RAW + PAIRED):
+        """Cfg constant of Intercept.tla: per protocol [n messages, flows, user actions]."""
+        cfg = {}
+        for p in protos:
+            if p in RAW:
+                cfg[p] = {"n": raw_n, "flows": 1, "user": raw_user}
+            else:
+                cfg[p] = {"n": 2 * flows, "flows": flows, "user": h2_user if p == "http2" else seq_user}
+        return {"Cfg": cfg, "Decisions": frozenset(DECISIONS), "EditOff": EDIT}
 
     def model_constants(self, tier):
-        return self._consts("paired", tier)
-
-    DUMPED = ("raw", "seq", "h2")
+        # dumped instance.  quick: raw protocols 2 messages / 3 user actions, dns+http1 two flows / 3 user actions,
+        # http2 (whose streams interleave freely) two flows / 2 user actions; thorough: 3 user actions everywhere
+        return self._cfg(2, 3, 3, 2 if tier == "quick" else 3)
 
     def model_runs(self, ctx):
-        runs = [ctx.model_check(self.MODEL, self._consts(g, ctx.tier) | ({"MaxN": 2} if g == "raw" else {}), dump=True,
-                                tag="_" + g) for g in self.DUMPED]
-        if not ctx.quick:
-            runs.append(ctx.model_check(self.MODEL, self._consts("raw", "thorough"), dump=False, tag="_rawbig"))
-            runs.append(ctx.model_check(self.MODEL, self._consts("paired", "thorough"), dump=False, tag="_pairedbig"))
+        runs = [ctx.model_check(self.MODEL, self.model_constants(ctx.tier), dump=True)]
+        if not ctx.quick:  # larger instances, exhaustive but not dumped
+            runs.append(ctx.model_check(self.MODEL, self._cfg(3, 3, 4, 4), dump=False, tag="_big"))
         return runs
 
     @staticmethod
@@ -120,24 +112,21 @@ class Check(core.PropertyCheck):
         return core.Scenario({"proto": proto, "plan": plan, "ops": ops}, predicted=pred, source=source)
 
     def scenarios(self, ctx, models):
-        for m, cap in zip(models[:3], (900, 1300, 1000)):
-            g = m.graph
-            behs = g.edge_cover(ctx.rng, max_len=24, tail=12)
-            ctx.notes.setdefault("edge_cover_paths", []).append(len(behs))
-            if ctx.quick and len(behs) > cap:
-                behs = ctx.rng.sample(behs, cap)
-            behs += g.random_walks(ctx.rng, 150 if ctx.quick else 2500, 20)
-            for b in behs:
-                yield self._scenario(b)
+        g = models[0].graph
+        behs = g.edge_cover(ctx.rng, max_len=24, tail=12)
+        ctx.notes["edge_cover_paths"] = len(behs)
+        if ctx.quick and len(behs) > 2800:  # quick: a seeded sample of the edge cover; thorough replays all of it
+            behs = ctx.rng.sample(behs, 2800)
+        behs += g.random_walks(ctx.rng, 300 if ctx.quick else 5000, 20)
+        for b in behs:
+            yield self._scenario(b)
         if not ctx.quick:
-            for group in ("raw", "paired"):
-                c = self._consts(group, "thorough") | {"MaxN": 5 if group == "raw" else 6, "NFlows": 1 if group == "raw" else 3,
-                                                       "MaxUser": 6}
-                behs, _r = ctx.simulate(self.MODEL, c, num=4000, depth=30, tag="sim_" + group)
+            for tag, c in (("raw", self._cfg(5, 6, 6, 6, protos=RAW)), ("paired", self._cfg(5, 6, 6, 6, flows=3, protos=PAIRED))):
+                behs, _r = ctx.simulate(self.MODEL, c, num=4000, depth=30, tag="sim_" + tag)
                 for b in behs:
                     yield self._scenario(b, "simulate")
         rng = random.Random(ctx.seed + 11)
-        for _ in range(700 if ctx.quick else 10000):
+        for _ in range(600 if ctx.quick else 10000):
             proto = rng.choice(RAW + PAIRED)
             yield core.Scenario({"proto": proto, "plan": None, "ops": None, "seed": rng.randrange(1 << 30),
                                  "n": rng.randint(3, 7) if proto in RAW else 2 * rng.randint(2, 4)}, source="random")
